@@ -1,8 +1,100 @@
-(* C18/Proofs.v -- the model meets the specification, for every input. *)
-From Coq Require Import ZArith List Bool String Ascii Lia.
+(* C18/Proofs.v -- the model meets the specification, for every input.
+   Part 1: characters and decimal text, dictionary keys, JSON round trip. *)
+From Coq Require Import ZArith List Bool String Ascii Lia ZifyBool.
 From PV Require Import Base.NpSearch C18.Model C18.Spec.
 Import ListNotations.
 Open Scope Z_scope.
 
-Lemma dtype_name_inv dt : dtype_ok dt = true -> dtype_of_name (dtype_name dt) = Some dt.
-Proof. destruct dt as [[] []]; cbn; intros H; try discriminate H; reflexivity. Qed.
+(* ================= characters ================= *)
+Lemma code_chr d : 0 <= d < 256 -> code (chr d) = d.
+Proof.
+  intros H. unfold code, chr. rewrite N_ascii_embedding by lia. lia.
+Qed.
+
+Lemma s2l_l2s l : s2l (l2s l) = l.
+Proof. apply list_ascii_of_string_of_list_ascii. Qed.
+Lemma l2s_s2l s : l2s (s2l s) = s.
+Proof. apply string_of_list_ascii_of_string. Qed.
+
+Definition dchr (d : Z) : ascii := chr (48 + d).
+Lemma dchr_digit d : 0 <= d < 10 -> is_digit (dchr d) = true.
+Proof. intros H. unfold is_digit, dchr. rewrite code_chr by lia. lia. Qed.
+Lemma dchr_val d : 0 <= d < 10 -> dval (dchr d) = d.
+Proof. intros H. unfold dval, dchr. rewrite code_chr by lia. lia. Qed.
+
+Definition dstep (a : Z) (c : ascii) : Z := 10 * a + dval c.
+Lemma digits_val_eq l : digits_val l = fold_left dstep l 0.
+Proof. reflexivity. Qed.
+Lemma digits_val_snoc l c : digits_val (l ++ [c]) = 10 * digits_val l + dval c.
+Proof. unfold digits_val. rewrite fold_left_app. reflexivity. Qed.
+
+(* ================= str(int) ================= *)
+Lemma show_nat_loop_spec fuel : forall n acc, (0 < fuel)%nat -> 0 <= n < 2 ^ Z.of_nat fuel ->
+  exists ds, show_nat_loop fuel n acc = ds ++ acc /\ ds <> [] /\
+             forallb is_digit ds = true /\ digits_val ds = n.
+Proof.
+  induction fuel as [|f IH]; intros n acc Hf H.
+  - lia.
+  - cbn [show_nat_loop]. fold (dchr (n mod 10)).
+    assert (Hm : 0 <= n mod 10 < 10) by (apply Z.mod_pos_bound; lia).
+    destruct (n <? 10) eqn:E.
+    + exists [dchr (n mod 10)]. split; [reflexivity|]. split; [discriminate|]. split.
+      * cbn [forallb]. rewrite dchr_digit by lia. reflexivity.
+      * unfold digits_val. cbn [fold_left]. rewrite dchr_val by lia. rewrite Z.mod_small by lia. lia.
+    + rewrite Nat2Z.inj_succ, Z.pow_succ_r in H by lia.
+      assert (Hp : 0 < 2 ^ Z.of_nat f) by (apply Z.pow_pos_nonneg; lia).
+      destruct (IH (n / 10) (dchr (n mod 10) :: acc)) as (ds & E1 & E2 & E3 & E4).
+      { destruct f; [cbn in H; lia|lia]. }
+      { split; [apply Z.div_pos; lia|]. apply Z.div_lt_upper_bound; lia. }
+      exists (ds ++ [dchr (n mod 10)]). rewrite E1, <- app_assoc. split; [reflexivity|].
+      split; [destruct ds; discriminate|]. split.
+      * rewrite forallb_app, E3. cbn [forallb]. rewrite dchr_digit by lia. reflexivity.
+      * rewrite digits_val_snoc, E4, dchr_val by lia. pose proof (Z.div_mod n 10). lia.
+Qed.
+
+Lemma show_nat_spec n : 0 <= n ->
+  show_nat n <> [] /\ forallb is_digit (show_nat n) = true /\ digits_val (show_nat n) = n.
+Proof.
+  intros H. unfold show_nat.
+  destruct (show_nat_loop_spec (S (Z.to_nat (Z.log2 n))) n []) as (ds & E1 & E2 & E3 & E4).
+  - lia.
+  - split; [lia|]. rewrite Nat2Z.inj_succ, Z2Nat.id by apply Z.log2_nonneg.
+    destruct (Z.eq_dec n 0) as [->|Hn]; [cbn; lia|]. apply Z.log2_spec. lia.
+  - rewrite E1, app_nil_r. auto.
+Qed.
+
+Lemma isdigit_show_nat n : 0 <= n -> isdigit (show_nat n) = true.
+Proof.
+  intros H. destruct (show_nat_spec n H) as (E1 & E2 & _). unfold isdigit.
+  destruct (show_nat n); [congruence|exact E2].
+Qed.
+
+Lemma minus_not_digit : is_digit ch_minus = false.
+Proof. reflexivity. Qed.
+
+(* ================= keys ================= *)
+Lemma intify_stringify_int z : intify_key (stringify_key (KInt z)) = KInt z.
+Proof.
+  unfold stringify_key, intify_key. rewrite s2l_l2s. unfold show_int.
+  destruct (z <? 0) eqn:E.
+  - assert (H : 0 <= - z) by lia. destruct (show_nat_spec (- z) H) as (_ & _ & E3).
+    cbn [isdigit forallb]. rewrite minus_not_digit. cbn [andb].
+    rewrite isdigit_show_nat by lia. replace (Ascii.eqb ch_minus ch_minus) with true by reflexivity.
+    cbn [andb]. rewrite E3. f_equal. lia.
+  - assert (H : 0 <= z) by lia. destruct (show_nat_spec z H) as (_ & _ & E3).
+    rewrite isdigit_show_nat by lia. rewrite E3. reflexivity.
+Qed.
+
+Lemma intify_stringify_str s : int_like s = false -> intify_key (stringify_key (KStr s)) = KStr s.
+Proof.
+  unfold int_like. cbn [stringify_key]. unfold intify_key.
+  destruct (isdigit (s2l s)); [discriminate|].
+  destruct (s2l s) as [|c r]; [reflexivity|].
+  destruct (Ascii.eqb c ch_minus && isdigit r); [discriminate|reflexivity].
+Qed.
+
+Lemma intify_stringify k : key_ok k = true -> intify_key (stringify_key k) = k.
+Proof.
+  destruct k as [z|s]; intros H; [apply intify_stringify_int|].
+  apply intify_stringify_str. cbn [key_ok] in H. destruct (int_like s); [discriminate|reflexivity].
+Qed.
